@@ -13,7 +13,19 @@ import (
 	"time"
 )
 
-const verifDir = "/verif"
+// verifDir is the root of the verification machinery: the directory the check
+// script runs from (normally /verif; a snapshot directory under `vp run`).
+var verifDir = func() string {
+	if d := os.Getenv("VERIF_DIR"); d != "" {
+		return d
+	}
+	if wd, err := os.Getwd(); err == nil {
+		if _, err := os.Stat(wd + "/properties.jsonl"); err == nil {
+			return wd
+		}
+	}
+	return "/verif"
+}()
 
 func repoDir() string {
 	if d := os.Getenv("VERIF_REPO"); d != "" {
